@@ -258,6 +258,11 @@ def run(chk):
     docs.append(("gadgetparam", P.HEAD + "  TSource { id: t0; onFontPicked: function(f: QFont) { a.ival = f.pointSize } }\n"
                  "  TSource { id: t1; onFontPicked: function(f: QFont) { f = a.font; b.font = f } }\n"
                  "  TSource { id: t2; onFontPicked: function(f: QFont) { f.bold = a.flag; f.pointSize = a.ival + 1; b.font = f } }\n}\n", [VERIF_METATYPES], True))
+    # bitwise operators on enum operands: flags (valid), and the plain / scoped enums of known finding F17
+    docs.append(("enumflags", P.HEAD + "  TSource { id: t0; opts: a.opts | TSource.OptX }\n  TSource { id: t1; opts: a.opts & TSource.OptY }\n"
+                 "  TSource { id: t2; flag: (a.opts & TSource.OptZ) == TSource.OptZ }\n  TSource { id: t3; level: a.flag ? TSource.Level.High : a.level }\n}\n", [VERIF_METATYPES], True))
+    docs.append(("enumbits", P.HEAD + "  TSource { id: t0; mode: a.mode | TSource.ModeB }\n  TSource { id: t1; level: a.level | TSource.Level.High }\n"
+                 "  TSource { id: t2; level: ~a.level }\n  TSource { id: t3; level: a.level & a.level }\n}\n", [VERIF_METATYPES], True))
     docs.append(("shiftu", P.HEAD + "  TSource { id: t0; uval: a.uval << 3; ival: a.ival >> a.uval; jval: (a.uval as int) + (a.flag as int) + (a.mode as int) }\n}\n", [VERIF_METATYPES], True))
     docs.append(("ctxquote", P.HEAD + "  TSource { id: t0; text: a.flag ? qsTr(\"x\") : a.text }\n}\n", [VERIF_METATYPES], True))
     for n, g in enumerate(GADGET_DOCS):
@@ -312,9 +317,14 @@ def run(chk):
             finding = "F6"
         if inv == "Compiles" and name == "fmod" and "% 2e0" in header:
             finding = "F7"
+        if inv == "Compiles" and name == "enumbits":
+            errs = re.findall(r"error: ([^\n]*)", err)
+            if errs and all(("invalid conversion from" in e and "int" in e and "TSource::Mode" in e) or (re.search(r"no match for .operator[|&~^].", e) and "TSource::Level" in e) for e in errs):
+                finding = "F17"
         if finding and chk.is_known(finding):
             chk.known_finding(finding, {"F6": "Math.min/max(<uint expression>, <integer literal>) is printed as std::min(a0, 3): template deduction fails",
-                                        "F7": "% on double operands is printed verbatim (a0 % 2e0): invalid C++"}[finding])
+                                        "F7": "% on double operands is printed verbatim (a0 % 2e0): invalid C++",
+                                        "F17": "a bitwise operator on operands of an enum type without a flags type (plain or scoped enum) is accepted and printed verbatim: invalid C++"}[finding])
             continue
         chk.violation("%s fails for header of document %s%s" % (inv, name, (": " + err[:400]) if inv == "Compiles" else ""),
                       {"invariant": inv, "qml": qml, "header": header, "compile_error": err[:4000], "tokens": recs[idx]})
